@@ -55,6 +55,11 @@ CHECKS = {
         text="Rejected snippets (the repository's own invalid test inputs, harvested; special snippets for literal-evaluation, conversion, macro-bracket, dedent-located and version-gate errors) are placed by ErrLayout.tla at 14 positions (first line, after blank/comment lines, after statements, inside space-/tab-indented and nested blocks, before more code, after multi-line tokens and continuations, CRLF, no final newline, after xonsh statements); the single-character edit neighbourhood (EditGen) of seed programs is added; both entry points are used and version-gated syntax is parsed under py_version=(3,8). TLC validates every raised error record against ErrShape.tla.",
         note="Line length = characters without the terminator; offset may be one past it. 'text begins with the source line' is compared by the harness (TLC strings cannot be sliced) and consumed by the spec as a boolean.",
         ref="5/C11"),
+    "C12": dict(
+        technique="TLC model check of EntryModel.tla (EntryPointsAgree for the file mode read from the working tree) + TLC-enumerated contents replayed through both entry points in 4 process environments; outcome pairs trace-validated by TLC (AstEq.tla)",
+        text="Design level: EntryModel.tla models decoding and line splitting of both entry points; TLC checks EntryPointsAgree for every content up to length 6 over {a, non-ASCII, CR, LF} and every locale, instantiated with the encoding/newline arguments parse_file actually passes to open(). Implementation level: every abstract string up to a bound over a 12-class alphabet (incl. CR, LF, non-ASCII, quote, bracket, comment) plus corpus programs and their CRLF / CR / non-ASCII / no-final-newline variants is parsed through parse_file and parse_string in child interpreters under LC_ALL=C.UTF-8 and LC_ALL=C (coercion off), each with -X utf8 on/off; trees (with positions) and errors (class, message, position, text) must coincide.",
+        note="Only C and C.UTF-8 locales are installed: the ASCII C locale stands for every non-UTF-8 locale (same default-encoding path).",
+        ref="5/C12"),
     "C14": dict(
         technique="TLC enumeration of statement sequences from StmtSeq.tla -> composition law checked on the real parser; tree pairs (whole vs shifted parts) trace-validated by TLC (AstEq.tla)",
         text="StmtSeq.tla lists 55 complete statement forms (Python simple/compound, multi-line tokens, comment/blank lines, every xonsh statement form incl. empty macros and path-literal concatenations); TLC enumerates every sequence of up to 2 (all kinds) / 3 (xonsh-heavy subset) kinds in quick, 3 / 4 in thorough; the body of the concatenation must equal the bodies of the parts with shifted line numbers, positions included.",
